@@ -14,6 +14,7 @@ pub mod c11;
 pub mod c12;
 pub mod c13;
 pub mod c14;
+pub mod c15;
 pub mod c20;
 
 pub fn property(id: &str) -> Option<Property> {
@@ -32,6 +33,7 @@ pub fn property(id: &str) -> Option<Property> {
         "C12" => Some(c12::property()),
         "C13" => Some(c13::property()),
         "C14" => Some(c14::property()),
+        "C15" => Some(c15::property()),
         "C20" => Some(c20::property()),
         _ => None,
     }
